@@ -467,6 +467,23 @@ class FnView:
             m = _re.match(r"^_1 = ([A-Za-z_][A-Za-z0-9_:<>]*)(?:\s*\{\s*\})?; _0 = &_1$", pv)
             if m:
                 return ("k", m.group(1))
+            # `(a..=b)`: temporaries, then RangeInclusive::new(a, b)
+            m = _re.search(r"_1 = std::ops::RangeInclusive::<\w+>::new\(([^,]+), ([^)]+)\); _0 = &_1$", pv)
+            if m:
+                env = {}
+                for part in pv.split("; "):
+                    mm = _re.match(r"^(_\d+) = const (.+?)(?: as \w+ \(IntToInt\))?$", part)
+                    if mm:
+                        env[mm.group(1)] = self._promoted_int(mm.group(2))
+
+                def arg(t):
+                    t = t.strip()
+                    if t.startswith("const "):
+                        return self._promoted_int(t[6:])
+                    return env.get(t.replace("move ", "").replace("copy ", ""))
+                lo, hi = arg(m.group(1)), arg(m.group(2))
+                if lo is not None and hi is not None:
+                    return ("ref", ("call", "std::ops::RangeInclusive::<Idx>::new", (lo, hi)))
             # a constant range `(a..b)` / `(a..=b)` as written in `(a..b).contains(&x)`
             m = _re.match(r"^_1 = std::ops::Range::<\w+> \{ start: const ([^,]+), end: const ([^ ]+) \}; _0 = &_1$", pv)
             if m:
@@ -487,6 +504,12 @@ class FnView:
         m = _re.match(r"^(-?\d+)(?:_[ui](?:\d+|size))?$", txt)
         if m:
             return ("int", int(m.group(1)))
+        m = _re.match(r"^std::num::<impl ([ui])(\d+)>::(MAX|MIN)$", txt)
+        if m:
+            bits = int(m.group(2))
+            if m.group(1) == "u":
+                return ("int", (1 << bits) - 1 if m.group(3) == "MAX" else 0)
+            return ("int", (1 << (bits - 1)) - 1 if m.group(3) == "MAX" else -(1 << (bits - 1)))
         for k, (v, ty) in self.prog.consts.items():
             if self.prog.defs[k].name == txt:
                 return ("int", v, txt)
